@@ -181,10 +181,13 @@ PROPS["C05"] = {
               "effects/ratelimiter:rateLimiter.AcquirePermits", "effects/ratelimiter:rateLimiter.acquirePermitsWithMaxWait",
               "effects/ratelimiterexecutor:executor.Apply", "locks/smoothStats.acquirePermits", "locks/burstyStats.acquirePermits"],
     "runners": [runner_blocking],
-    "diff": [{"slice": "limiter", "n_quick": 400, "n_thorough": 4000, "seeds_thorough": 6, "n_search": 4000}],
+    "diff": [{"slice": "limiter", "n_quick": 400, "n_thorough": 4000, "seeds_thorough": 6, "n_search": 4000},
+             {"slice": "linzrl", "recorded": True, "n_quick": 120, "n_thorough": 1200, "seeds_thorough": 3, "n_search": 600, "par": 4}],
     "rule": "limiter slice: random smooth/bursty configurations (1 ns … 1 h), 60 (quick) or 300 (thorough) requests per case at "
             "boundary-biased instants (exact slot/period boundaries, ±1 ns, long idle gaps after deficits), permit counts 0–50 and "
-            "around the period size, max waits {-1, 0, unit±1, time-to-boundary, random}; non-trivial = the request waited or was refused",
+            "around the period size, max waits {-1, 0, unit±1, time-to-boundary, random}; non-trivial = the request waited or was refused; "
+            "linzrl slice: concurrent histories of ONE shared smooth or bursty limiter behind the virtual clock, 4-7 goroutines x one reserve / try-acquire operation each, "
+            "most of them with a max wait of zero, checked for linearizability against the sequential model (see C14)",
     "assumptions": ["stopwatch instants are non-negative and non-decreasing", "no 64-bit overflow at generated magnitudes",
                     "Go timers never fire early (blocking acquire)"],
     "manifest": {
@@ -212,7 +215,7 @@ PROPS["C03"] = {
     ],
     "diff": [{"slice": "breaker", "n_quick": 300, "n_thorough": 3000, "seeds_thorough": 6, "n_search": 3000}],
     "rule": "breaker slice through the virtual clock hook: configurations over count / ratio / period-count / period-rate failure thresholds x "
-            "none / success threshold / success ratio x fixed delay / delay function; 120 (quick) or 600 (thorough) operations per case from "
+            "none / success threshold / success ratio x fixed delay (0-199 ns, or the maximal Duration: 'open until closed by hand') / delay function; 120 (quick) or 600 (thorough) operations per case from "
             "{RecordSuccess, RecordFailure, execution success/failure through the policy, TryAcquirePermit, Open, HalfOpen, Close, clock advance}; "
             "advances drawn from {0, 1 ns, remaining delay, remaining-1, to the next slice boundary, boundary-1, period+x, random}; "
             "non-trivial = the operation emitted a state-change event or refused a permit",
@@ -243,7 +246,10 @@ PROPS["C12"] = {
             "AbortOn*/CancelOn*) x outcomes: results 0..2 with nil, sentinel (library sentinels and user errors), fmt-wrapped, custom-wrapped, "
             "errors.Join-ed, custom multi-error, typed (value and pointer receiver) errors and ExceededError with and without a last error, "
             "tree depth <= 3; each outcome is observed through a real fallback, breaker (execution and standalone Record*), retry policy "
-            "(retried / aborted) and hedge policy (first result accepted or hedged); non-trivial = classified as failure or abort-matching",
+            "(retried / aborted) and hedge policy (first result accepted or hedged), all of them long-lived: one instance per configuration sees every outcome of the case, so a "
+            "classification that depends on what the policy saw before disagrees with the model; plus one row per case of a deep-equality table (result types pointer / slice / map / "
+            "comparable struct holding a pointer / interface / string; outcome an equal copy in a distinct allocation, or a different value) through HandleResult and AbortOnResult; "
+            "non-trivial = classified as failure or abort-matching",
     "assumptions": ["predicates passed to HandleIf/AbortIf/CancelIf are pure", "reflect.DeepEqual on the result type is equality (int results)"],
     "modelled": ["errors.Is / util.ErrorTypesMatch over error trees are modelled (Err.is, Err.typeMatch) and validated differentially against Go, not verified",
                  "interface-typed targets of HandleErrorTypes are not generated"],
@@ -260,8 +266,12 @@ COMPOSE_RULE = ("compose slice (retry policies optionally with a max duration an
                 "error kinds, blocking-until-cancelled outcomes when something can release them), context cache keys, standalone bulkhead "
                 "permits, clock advances, sync and async entry points; every listener the builders expose is recorded in one ordered log with "
                 "Attempts/Executions sampled at each event; observed: result, error tree, verdict listener, invocations, Attempts/Executions/"
-                "Retries/Hedges, log, breaker state+metrics, free permits, cache contents; non-trivial = more than the three executor events or an error result")
-COMPOSE_ASSUME = ["instant outcomes complete long before any timer (hedge delay 6 ms, timeout 80 ms): schedules of racing timers belong to C07/C09",
+                "Retries/Hedges, log, breaker state+metrics, free permits, cache contents; cache policies with 0-2 CacheIf conditions; every builder that copies its configuration in Build "
+                "(retry, fallback, timeout, hedge) is told other settings and listeners after Build, the executor is bound to another context (with a cache key of its own) before the "
+                "real one, and a sibling executor derived from the same base gets listeners of its own: none of that may show; after an attempt its Timeout cut short a later invocation "
+                "may be a scripted cancellation point (C07); StartTime / AttemptStartTime readings at every event are checked by a harness oracle (C17); "
+                "non-trivial = more than the three executor events or an error result")
+COMPOSE_ASSUME = ["instant outcomes complete long before any timer (hedge delay 15 ms, timeout 600 ms): schedules of racing timers belong to C07/C09",
                   "user functions, listeners and predicates do not panic and cooperate with cancellation"]
 COMPOSE_MODELLED = ["a hedge at a position other than the innermost is exercised with instant outcomes only (a blocked attempt would run the policies inside the hedge concurrently with the next attempt); blocking outcomes only with an innermost hedge",
                     "rate limiter inside a stack uses max wait 0 (no real waiting) behind the virtual stopwatch"]
@@ -380,7 +390,7 @@ PROPS["C13"] = {
     "diff": [{"slice": "retrydelay", "n_quick": 1500, "n_thorough": 20000, "seeds_thorough": 4, "n_search": 20000}],
     "runners": [runner_retrytiming_notbefore],
     "rule": "retrydelay slice through the VerifDelaySequence hook (real executor, real getDelay, no waiting): fixed / backoff (factors 1, 1.001, 1.1, 1.5, 2, 7/3, 5) / "
-            "random range / delay function (returning -1, 0, values) x none / absolute jitter / jitter factor x with and without max duration, magnitudes 1 ns ... 7 h "
+            "random range / delay function (returning -1, 0, values; in half of those cases answering for the first 1-3 failures only, over a fixed delay or a backoff that takes over afterwards) x none / absolute jitter / jitter factor x with and without max duration, magnitudes 1 ns ... 7 h "
             "incl. 2^24+1 ns, 1-24 consecutive failures, elapsed time stepping past the max duration; deterministic sequences must equal the model (native Float32) exactly, "
             "sequences with draws must lie in the envelope around the model's un-jittered value; non-trivial = more than one delay in the sequence",
     "assumptions": ["IEEE-754: Lean native Float32/Float = Go float32/float64 (validated by exact equality of every deterministic backoff sequence)",
@@ -496,7 +506,8 @@ PROPS["C19"] = {
             "(RoundTripper and Request.Do; retry with Retry-After 0, ReturnLastFailure, timeouts that fire, hedges incl. pairs of attempts answered at the same instant, "
             "streamed bodies; long-lived caller context with values, long-lived executor context) and 120 gRPC client / server interceptor calls (retry, hedge, firing "
             "timeout); census after quiescence and a grace period: no goroutine with a frame of this module, goroutine count not grown, every response obtained by "
-            "sequential attempts closed, no connection left open at the server",
+            "sequential attempts closed, no connection left open at the server; plus a hedge policy around the HTTP retry policy (the hedge branch is told to retry and then wins) and "
+            "response bodies whose Close reports an error under an executor bound to a context of a non-standard type",
     "runners": [stress_runner("leaks", "goroutines started on behalf of finished executions are still alive after a grace period", confirm=2),
                 stress_runner("adapterleaks", "after HTTP / gRPC calls through the adapters returned (and the returned bodies were closed) goroutines of this module, unclosed retried responses or open server connections remain", confirm=2)],
     "assumptions": CONC_ASSUME if False else ["the Go scheduler's interleavings are sampled (statistical), the model's are covered completely",
@@ -541,7 +552,7 @@ PROPS["C04"] = {
     "required_theorems": ["Failsafe.Props.C04.open_rejects_all", "Failsafe.Props.C04.rejected_never_runs", "Failsafe.Props.C04.halfopen_inflight_le_capacity",
                           "Failsafe.Props.C04.trial_returns_permit", "Failsafe.Props.C04.stale_record_breaks_bound_witness"],
     "diff": [{"slice": "breaker", "n_quick": 150, "n_thorough": 1500, "seeds_thorough": 3, "n_search": 1500}],
-    "rule": "breaker slice (sequential, see C03) + STRESS breaker: per round a breaker with random thresholds behind the virtual clock; 6-15 concurrent gated executions (sync/async, alone or under fallback/timeout) race with the failures that open it; then 12 concurrent executions under a retry while open (clock held one ns before the delay): none may be invoked, all fail with ErrOpen; then capacity+2..5 concurrent gated trials after the delay: concurrently running trials <= capacity, all permits back if still half-open",
+    "rule": "breaker slice (sequential, see C03) + STRESS breaker: per round a breaker with random thresholds behind the virtual clock; 6-15 concurrent gated executions (sync/async, alone or under fallback/timeout) race with the failures that open it; then 12 concurrent executions under a retry while open (clock held one ns before the delay): none may be invoked, all fail with ErrOpen; three more executions are started from inside the (slow) OnOpen listener and must be rejected too; then capacity+2..5 concurrent gated trials after the delay: concurrently running trials <= capacity, all permits back if still half-open",
     "runners": [stress_runner("breaker", "an open breaker admitted an execution before its delay elapsed, or more trials ran concurrently than the trial capacity, or a trial permit was lost")],
     "assumptions": CONC_ASSUME + ["the half-open bound is claimed for schedules in which no execution admitted before the opening is still in flight (the property's caveat)"],
     "modelled": ["thresholds are abstracted to a nondeterministic verdict in the interleaving model; their exact arithmetic is C03"],
@@ -596,7 +607,7 @@ PROPS["C09"] = {
                           "Failsafe.Props.C09.at_most_one_send", "Failsafe.Props.C09.winner_produced_by_attempt", "Failsafe.Props.C09.cancellable_sent_at_once",
                           "Failsafe.Props.C09.losers_cancelled_winner_not"],
     "diff": [COMPOSE_DIFF],
-    "rule": COMPOSE_RULE + "; plus STRESS hedge: maxHedges 0-3, delays 0.3-0.8 ms, default and CancelIf conditions, per-attempt durations 0-1.5 ms or blocking (termination rule: a blocking attempt only if some finite attempt yields a cancellable result), every completion order the scheduler produces; monitors: attempts <= maxHedges+1, hedge k not before k delays, none after return, result produced by a finished attempt, non-cancellable only after all finished, losers cancelled and winner not at return",
+    "rule": COMPOSE_RULE + "; plus STRESS hedge: maxHedges 0-3, delays 0.3-0.8 ms, default and CancelIf conditions, per-attempt durations 0-1.5 ms or blocking (termination rule: a blocking attempt only if some finite attempt yields a cancellable result), every completion order the scheduler produces; monitors: attempts <= maxHedges+1, hedge k not before the first k delays (a third of the runs with a delay function whose delays grow with every hedge), none after return, result produced by a finished attempt, non-cancellable only after all finished, losers cancelled and winner not at return",
     "runners": [stress_runner("hedge", "a hedged execution started too many or too early attempts, returned a result no attempt produced, delivered a non-cancellable result early, or left a loser uncancelled / cancelled the winner")],
     "assumptions": CONC_ASSUME + ["'accepted' = received by the coordinating loop"], "modelled": ["goroutines, atomics and the result channel are modelled as atomic actions"],
     "manifest": {
